@@ -753,10 +753,11 @@ class FCtx(object):
 
     @classmethod
     def get(cls, model, fref):
-        key = (id(model), fref)
-        if key not in cls._cache:
-            cls._cache[key] = FCtx(model, fref)
-        return cls._cache[key]
+        # (kept on the model: a long-lived process analysing many trees must not keep every tree it ever saw)
+        cache = model.__dict__.setdefault("_fctx_cache", {})
+        if fref not in cache:
+            cache[fref] = FCtx(model, fref)
+        return cache[fref]
 
     @property
     def qname(self):
